@@ -1070,6 +1070,51 @@ impl<'a> Gen<'a> {
         steps
     }
 
+    /// Directed history with a big table: a few dozen rows doubled by INSERT .. SELECT until a
+    /// single statement writes more than a thousand rows into one row-set, then broad deletes
+    /// (long delete vectors), reopen cycles and further statements.
+    pub fn bulk_scenario(&mut self) -> Vec<Step> {
+        let mut steps = vec![];
+        let apply = |g: &mut Self, s: Stmt, steps: &mut Vec<Step>| {
+            if !matches!(g.model.expect(&s), Expect::Err(_)) {
+                g.model.apply(&s);
+            }
+            steps.push(Step::Stmt(s));
+        };
+        let d = self.gen_table();
+        let t = d.name.clone();
+        apply(self, Stmt::CreateTable(d.clone()), &mut steps);
+        self.prof.max_rows_per_insert = 40;
+        for _ in 0..2 {
+            let s = self.gen_insert(&t);
+            apply(self, s, &mut steps);
+        }
+        let doublings = 5 + self.rng.usize(3);
+        for i in 0..doublings {
+            let s = Stmt::InsertSelect { table: t.clone(), from: t.clone(), pred: Pred::default() };
+            apply(self, s, &mut steps);
+            if i + 2 == doublings && self.rng.chance(1, 2) {
+                steps.push(Step::Advance { ms: 1500 });
+            }
+        }
+        for round in 0..2 {
+            let pred = if self.rng.chance(1, 3) { Pred::default() } else { self.gen_pred(&d, true) };
+            apply(self, Stmt::Delete { table: t.clone(), pred }, &mut steps);
+            if self.rng.chance(1, 2) {
+                steps.push(Step::Advance { ms: 1500 });
+            }
+            steps.push(Step::Reopen);
+            let s = self.gen_insert(&t);
+            apply(self, s, &mut steps);
+            if round == 0 && self.rng.chance(1, 2) {
+                let s = Stmt::InsertSelect { table: t.clone(), from: t.clone(), pred: Pred::default() };
+                apply(self, s, &mut steps);
+            }
+        }
+        steps.push(Step::Reopen);
+        steps
+    }
+
     pub fn history(&mut self) -> Vec<Step> {
         let n = 3 + self.rng.usize(self.prof.max_steps.saturating_sub(2).max(1));
         (0..n).map(|_| self.step()).collect()
